@@ -76,9 +76,17 @@ pub fn run(a: &Args) {
         if dso_bad_name { lines.push(format!("chain {} 4", rng.range(1, 4))); }
         let scen = Scenario { threads, lines };
         let target = match Target::spawn(&scen, &work) { Ok(t) => t, Err(e) => { out.notes.push(format!("spawn failed: {e}")); continue; } };
+        // a natural failure of "stopping the process": the target's main thread is held in a trace stop by another tracer (this
+        // harness), so the process never reports the stopped state within the writer's timeout, and that thread cannot be attached
+        let held_main = shape == 1;
+        if held_main {
+            unsafe { libc::ptrace(libc::PTRACE_SEIZE, target.pid, 0, 0); libc::ptrace(libc::PTRACE_INTERRUPT, target.pid, 0, 0); let mut st = 0; libc::waitpid(target.pid, &mut st, libc::__WALL); }
+            out.count("shape.main_thread_held_by_another_tracer");
+        }
         let skip_unref = shape > 0 && rng.chance(1, 3);
         let chain_base = target.fact_hex("chain");
         let configure = |w: &mut MinidumpWriter| {
+            if held_main { w.stop_timeout(std::time::Duration::from_millis(40)); }
             if skip_unref { w.skip_stacks_if_mapping_unreferenced(); }
             if dso_bad_name { w.set_direct_auxv_dump_info(DirectAuxvDumpInfo { program_header_count: 2, program_header_address: chain_base, linux_gate_address: 0, entry_address: 0 }); }
             else if dso_fails { w.set_direct_auxv_dump_info(DirectAuxvDumpInfo { program_header_count: 3, program_header_address: 0x10, linux_gate_address: 0, entry_address: 0 }); }
@@ -105,12 +113,12 @@ pub fn run(a: &Args) {
             let Some(world) = world else { continue };
             // model input
             let mut line = Line::new("c11_tree");
-            for i in 0..5 { line.b(mask >> i & 1 == 1); }
+            for i in 0..5 { line.b(mask >> i & 1 == 1 || (i == 0 && held_main)); }
             line.b(skip_unref).b(os_release_missing).b(dso_fails).z(world.threads.len());
             for t in &world.threads {
                 let idx = target.tids.iter().position(|x| *x == t.tid);
                 let nullsp = idx.map(|i| scen.threads[i].kind == Kind::NullSp).unwrap_or(false);
-                line.u(if nullsp { 1 } else { 0 });
+                line.u(if nullsp { 1 } else if held_main && t.tid == target.pid { 2 } else { 0 });
             }
             let mut r = Line::bare();
             let img = match res { Ok(Ok(i)) => i, Ok(Err(e)) => { out.case(line.s(), &format!("!dump failed under fail points {mask:05b}: {}", e.replace('\n', " ").chars().take(200).collect::<String>()), true); continue; }
@@ -138,7 +146,8 @@ pub fn run(a: &Args) {
             }
             out.case(l.s(), r.s(), mask != 0);
         }
+        if held_main { unsafe { libc::ptrace(libc::PTRACE_DETACH, target.pid, 0, 0); } }
     }
     out.assumptions.push("JSON well-formedness is observed by parsing with serde_json; tag numbering is shared between harness/src/c11.rs and SoftErr.v".into());
-    out.finish(&a.out, "live targets (0..5 extra threads, null-SP helpers, optional skip-unreferenced without principal mapping, optional unreadable linker data through direct auxv) x fail-point subsets (all 32 on the first shape, a sample on the others; all 32 on every shape in the thorough tier): dump must succeed, the soft-error JSON reduced to variant tags must equal the model's tree, every stream not owned by a failed step must equal the no-fault dump of the same target; non-trivial = at least one fail point enabled");
+    out.finish(&a.out, "live targets (0..5 extra threads, null-SP helpers, optional skip-unreferenced without principal mapping, optional unreadable linker data through direct auxv; one shape whose main thread is held in a trace stop by another tracer, so that stopping the process times out) x fail-point subsets (all 32 on the first shape, a sample on the others; all 32 on every shape in the thorough tier): dump must succeed, the soft-error JSON reduced to variant tags must equal the model's tree, every stream not owned by a failed step must equal the no-fault dump of the same target; non-trivial = at least one fail point enabled");
 }
